@@ -675,6 +675,8 @@ def check_seq_cache_light(ctx, prop):
 
 
 def check_c06(ctx):
+    # the janitor is a remover too: scripted lives with the callback swapped between passes (Trace_CacheLife checks the id of every report)
+    life_check(ctx, lifecycle=False)
     run_conc(ctx, cache_scenarios(ctx, ALL_CACHES, pick=("G1", "G2", "G5", "G6", "G7", "G8", "G9b-visitor-del")), "Trace_CacheLin", "C06", "cache removers", c13=True)  # "the callback runs outside internal locks": a re-entrant callback that hangs is a C06 violation too
     check_seq_cache_light(ctx, "C06")
 
@@ -839,13 +841,17 @@ def life_programs(ctx):
                          {"op": "get", "k": "k3"}, {"op": "set", "k": "k4", "d": 10 * US}, {"op": "set", "k": "k5", "d": 10 * US},
                          {"op": "advance", "d": period // 2}, {"op": "get", "k": "k4"}, {"op": "advance", "d": period // 4}, {"op": "observe"},
                          {"op": "deleteexpired"}, {"op": "set", "k": "k6", "d": 1 * US}, {"op": "advance", "d": 3 * period + 7 * US}, {"op": "observe"},
-                         {"op": "advance", "d": period}, {"op": "observe"}]
+                         {"op": "advance", "d": period}, {"op": "observe"},
+                         # the callback is swapped: a janitor pass (and a manual one) must report to the callback in force
+                         {"op": "setcb", "k": "cb2"}, {"op": "set", "k": "k7", "d": 1 * US}, {"op": "set", "k": "k8", "d": 1 * US}, {"op": "advance", "d": 2 * period}, {"op": "observe"},
+                         {"op": "get", "k": "k7"}, {"op": "deleteexpired"}, {"op": "setcb", "k": ""}, {"op": "set", "k": "k9", "d": 1 * US},
+                         {"op": "advance", "d": 2 * period}, {"op": "deleteexpired"}, {"op": "observe"}]
                 progs.append({"kind": kind, "ctor": ctor, "hasintv": hasintv, "intv": intv, "cb": cb, "steps": steps,
                               "note": "%s %s interval=%s cb=%s" % (kind, ctor, intv if hasintv else "default", cb)})
     return progs
 
 
-def check_c15(ctx):
+def life_check(ctx, lifecycle=True):
     res = lib.tlc_exhaustive("CacheLifeMC", "CacheLifeMC.cfg", timeout=3600)
     ctx.add_model("CacheLifeMC (janitor machine: OnlyWhenConfigured, BoundedStaleness, TickAhead)", res)
     ctx.cov["exhaustive"] = True
@@ -855,7 +861,9 @@ def check_c15(ctx):
     life = [{"kind": k, "n": n, "entries": e, "intv": 1_000_000, "cb": cb}
             for k in ("Cache", "CacheOf") for (n, e) in ((1, 3), (50, 2), (20, 0)) for cb in (False, True)]
     life += [{"kind": k, "n": 10, "entries": 3, "intv": 1_000_000, "cb": True, "busy": True} for k in ("Cache", "CacheOf")]
-    if ctx.thorough:
+    if not lifecycle:
+        life = []
+    if ctx.thorough and lifecycle:
         life += [{"kind": k, "n": 400, "entries": 3, "intv": iv, "cb": True} for k in ("Cache", "CacheOf") for iv in (1_000_000, 10_000_000_000)]
     job = {"programs": life_programs(ctx), "lifecycle": life}
     pin, out = os.path.join(d, "life.json"), os.path.join(d, "life.ndjson")
@@ -876,7 +884,8 @@ def check_c15(ctx):
     ctx.cov["janitor_programs"] = len(job["programs"])
     ctx.cov["lifecycle_batches"] = len(life)
     ctx.sample({"label": "janitor program", "events": [slim(json.loads(x)) for x in runs[2][:8]]})
-    ctx.sample({"label": "lifecycle", "events": [slim(json.loads(x)) for x in runs[-1]]})
+    if lifecycle:
+        ctx.sample({"label": "lifecycle", "events": [slim(json.loads(x)) for x in runs[-1]]})
     for (i, evi, lines) in rejected:
         ev = json.loads(lines[evi]) if evi < len(lines) else {}
         hdr = json.loads(lines[0])
@@ -885,6 +894,12 @@ def check_c15(ctx):
     ctx.assumptions += ["virtual ticker: the janitor's time.NewTicker is fed by clock advances; after each advance the harness waits (bounded, real time) until fired ticks are consumed and Count is stable",
                         "GC / finaliser timing is not controllable: bounded waits (20 s), INCONCLUSIVE if an unrelated baseline finaliser does not run in the same window",
                         "life traces are in microseconds (the 10 s default interval does not fit 32-bit TLC integers in ns)"]
+
+
+
+
+def check_c15(ctx):
+    life_check(ctx, lifecycle=True)
 
 
 CHECKS["C15"] = check_c15
